@@ -557,6 +557,10 @@ class Ctx:
                 self.inconclusive.append((label, _clip(str(goal), 200)))
                 return False
             env = self.real_point(model, [z3.Not(goal)]) or model_env(model, self)
+        if self.notes.get("last_model_is_candidate"):
+            detail = dict(detail or {})
+            detail["candidate_from_abstraction"] = True
+            self.notes["last_model_is_candidate"] = False
         self.failures.append(
             Failure(label, goal, env, len(self.path), detail)
         )
@@ -1127,6 +1131,7 @@ def solve(fs, ctx: Ctx, timeout_ms, links=False, feasibility=False):
     if ctx.sort == "F":
         from . import fp as _fp
 
+        n_abs, res = 0, None
         if not ctx.notes.get("fp_exact_only"):
             afs, axioms, n_abs = _fp.fp_abstract(fs)
             if n_abs:
@@ -1144,11 +1149,20 @@ def solve(fs, ctx: Ctx, timeout_ms, links=False, feasibility=False):
                     # over-approximate feasibility: exploring an infeasible path
                     # only adds vacuously true obligations
                     return "sat", ((s.model(), {}) if res == "sat" else None)
+        abstract_model = None
+        if not ctx.notes.get("fp_exact_only") and n_abs and res == "sat":
+            abstract_model = s.model()
         s = z3.Solver()
-        s.set("timeout", int(timeout_ms))
+        s.set("timeout", int(min(timeout_ms, ctx.notes.get("fp_exact_timeout_ms", timeout_ms))))
         s.set("random_seed", int(ctx.seed))
         s.add(*fs)
         res = str(s.check())
+        if res == "unknown" and abstract_model is not None:
+            # the bit-precise query did not finish: hand the abstraction's model
+            # out as a *candidate*; only a replay on the real code can confirm it
+            ctx.notes["last_model_is_candidate"] = True
+            return "sat", (abstract_model, {})
+        ctx.notes["last_model_is_candidate"] = False
         return res, ((s.model(), {}) if res == "sat" else None)
     lem = lemma_instances(fs, ctx, links=links)
     pfs, table = purify(fs + lem)
